@@ -1,3 +1,32 @@
-(* C13, HLL part -- statements only (being built). *)
-From DS Require Import Base.Prelude Model.Hll Model.HllCodec.
+(* C13, HLL part -- every image variant Java/C++ can emit is read back to the state it encodes.
+   Statements only; proofs in Proofs/HllCodecProofs.v.  Spec/HllLayout.v holds the spec encoders
+   (written from the format description).
+   PARTIAL: proved for the two LIST variants (compact: `count` coupons; updatable: all 1 << lgArr
+   slots, zeros empty).  For the other variants (set compact in any order / updatable table; Hll4,
+   Hll6, Hll8 arrays with or without the COMPACT flag, out-of-order flag, cur_min > 0, compact aux
+   list with either lgArr byte) the statement
+       hll_deserialize (spec_encode v a) = Ok s /\ abstraction of s = a
+   is not proved; it is checked by the foreign-image oracle (Corr/Hll.v foreign_ok) on images built by
+   the generator's independent encoder.  NOT read back (known finding C13-hll-updatable-hll4-aux):
+   updatable Hll4 images whose exceptions are stored as a hash table. *)
+From DS Require Import Base.Prelude Model.Hll Model.HllCodec Spec.HllLayout Proofs.HllBase Proofs.HllSet Proofs.HllCodecProofs.
 Open Scope N_scope.
+
+Theorem c13_hll_list_variants_partial :
+  forall compact lgk t cs, 4 <= lgk <= 21 -> NoDup cs -> Forall valid cs -> (length cs < 8)%nat ->
+  hll_deserialize (enc_list compact lgk (tgt_num t) cs) = Ok (mkSketch lgk (MList (list_of_coupons cs) t)).
+Proof. exact list_variants_read_back. Qed.
+
+(* the sketch read back is the well-formed 8-slot list holding exactly cs in order *)
+Theorem c13_hll_list_is_wellformed :
+  forall cs, NoDup cs -> Forall valid cs -> (length cs < 8)%nat -> ListInv (list_of_coupons cs) cs.
+Proof. exact list_of_coupons_inv. Qed.
+
+(* array images carrying the COMPACT flag (what toCompactByteArray emits; defect D4) and images
+   without it are read alike: the model's reader does not consult the flag for the register block *)
+Example c13_hll_compact_flag_example :
+  let img (flags : N) := [10; 1; 7; 4; 0; flags; 0; 10] ++ repeat 0 24 ++ le_bytes 4 15 ++ le_bytes 4 0
+                         ++ [5; 0; 0; 0; 0; 0; 0; 0; 0; 0; 0; 0; 0; 0; 0; 0] in
+  exists a a', hll_deserialize (img 8) = Ok (mkSketch 4 (MArr8 a)) /\ hll_deserialize (img 0) = Ok (mkSketch 4 (MArr8 a')) /\
+    a8_get a 0 = 5 /\ a8_get a' 0 = 5 /\ a8_nz a = 15 /\ a8_nz a' = 15.
+Proof. vm_compute. eexists. eexists. repeat split; reflexivity. Qed.
